@@ -301,6 +301,8 @@ def extra_tasks(pid):
         ts += [('contracts.bulk', 'cull_task', ('C14', 'least-recently-stored'))]
     if pid == 'C07':
         ts += [('contracts.traces', 'exclusive_create', ())]
+    if pid == 'C06':
+        ts += [('contracts.fanout_common', 'fanout_transact', ()), ('contracts.fanout_common', 'persistent_transact', ())]
     return ts
 
 
